@@ -54,7 +54,9 @@ func genC04(r *Rng, tier string, idx int) *Plan {
 	stateSrc := func() string {
 		return r.Pick([]string{"own", "of:0", "of:1", "of:2", "forged", "near", "upper", "truncated", "extended"})
 	}
-	cookie := func() string { return r.Pick([]string{"own", "of:0", "of:1", "held", "none", "garbage"}) }
+	cookie := func() string {
+		return r.Pick([]string{"own", "of:0", "of:1", "held", "none", "garbage", "foreign-first:3", "foreign-first:0", "name-variant:prefix-x"})
+	}
 	crafted := func(b int) Op {
 		return Op{ID: nid(), Kind: "cb", B: b, S: cookie(), Args: map[string]string{"code": codeSrc(), "state": stateSrc(), "variant": r.Pick(variants)}}
 	}
